@@ -22,7 +22,7 @@ ASSUMPTIONS = [
     "a generated feature 'acts on glyphs of a script' when one of its lookups covers a glyph whose script extensions contain that script",
 ]
 N = {"quick": (8, 300), "thorough": (16, 1500)}
-FLOORS = {"declared-scripts": 0.3, "no-languagesystem": 0.1, "two-scripts-with-kerning": 0.2, "cursive": 0.15, "known-finding-class-hit": 0.1}
+FLOORS = {"declared-scripts": 0.188, "no-languagesystem": 0.1, "two-scripts-with-kerning": 0.185, "cursive": 0.15, "known-finding-class-hit": 0.1}  # a third of the measured frequency: a starving generator is a harness error, sampling noise is not
 
 POOL = [("A", 0x41), ("a", 0x61), ("be-cy", 0x431), ("ie-cy", 0x435), ("alef-ar", 0x627), ("beh-ar", 0x628), ("bet-hb", 0x5D1), ("ka-deva", 0x915), ("period", 0x2E),
         ("apostrophemod", 0x2BC), ("acutecomb", 0x301), ("fatha-ar", 0x64E), ("anusvara-deva", 0x902)]
